@@ -294,7 +294,7 @@ def _run_shard(ctx):
         mode = gens.pick(rng, MODES)
         mpo = gens.pick(rng, [{'mode': 'mean', 'stat_length': 2}, {'mode': 'maximum', 'stat_length': 2}, {'mode': 'minimum', 'stat_length': 3},
                               {'mode': 'constant', 'constant_values': 0.7}, {'mode': 'linear_ramp', 'end_values': -0.4}]) if rng.random() < .3 else None
-        if np.asarray(x).dtype.kind == 'i':
+        if np.asarray(x).dtype.kind in 'iu':
             mpo = None    # np.pad's 'mean' rounds on integer arrays: numpy's business, not the property's
         ctx.count('random_signals')
         check_extrema(ctx, x, pad, mode, parabolic, mpo, tag='rand')
